@@ -120,7 +120,7 @@ func checkC04(r *Report, known []Finding) {
 	r.Rule = "pattern from corpus/mutation/grammar (one PRNG), haystack sampled from the pattern's language and mutated (valid and ill-formed UTF-8); " +
 		"per case: the real engine's FindIndicesAt/FindSubmatchAt table at every offset is recorded, the Lean loop models run over it and must equal every enumeration API's output; " +
 		"non-trivial = the enumeration has >= 2 matches or contains an empty match; distinct by (pattern, haystack)"
-	np, nh := 700, 6
+	np, nh := 2000, 6
 	if r.Tier == "thorough" {
 		np, nh = 6000, 10
 	}
